@@ -115,6 +115,7 @@ type childResult struct {
 	stderr   string
 	races    []raceReport
 	logFiles int
+	maxRSSKB int64
 }
 
 func runRep(scratch string, jb job, watchdog time.Duration) *childResult {
@@ -146,6 +147,11 @@ func runRep(scratch string, jb job, watchdog time.Duration) *childResult {
 	cmd.Stdout, cmd.Stderr = ef, ef
 	err = cmd.Run()
 	ef.Close()
+	if cmd.ProcessState != nil {
+		if ru, ok := cmd.ProcessState.SysUsage().(*syscall.Rusage); ok {
+			res.maxRSSKB = ru.Maxrss
+		}
+	}
 	if ctx.Err() != nil {
 		res.timedOut = true
 	}
@@ -179,6 +185,10 @@ func runRep(scratch string, jb job, watchdog time.Duration) *childResult {
 }
 
 func main() {
+	if jp := os.Getenv(envDefaults); jp != "" {
+		runDefaultsChild(jp)
+		return
+	}
 	if jp := os.Getenv(envJob); jp != "" {
 		runChild(jp)
 		return
@@ -198,6 +208,7 @@ func main() {
 		"scrypt work factor 5 (cost only); RSA keys of 2048 bits; payloads 0 B, 1 B, 65 KiB, 200 KiB",
 		"operations per goroutine: 12/4/2/1 for 2/8/32/128 goroutines; shared values and shared lists are constructed afresh for every round",
 		"constructor variants rotate per round: RSA identity from ParseIdentity / NewRSAIdentity over a bare component-built key (also after Validate) / over a precomputed key; Ed25519 identity from ParseIdentity / NewEd25519Identity(seed key); recipients from ParseRecipient / New*Recipient(ssh.NewPublicKey(rebuilt key)); in bare-key rounds the first call of up to 6 goroutines is an ssh-rsa decryption",
+		"library-defaults stage: passphrase operations at the default work factor 18 (256 MiB each) run in a child built without -race; a hang is reported only if nothing completed for 60 s and every unfinished worker is parked in filippo.io/age code (goroutine dump), otherwise the run is inconclusive",
 		"shared lists: three []age.Identity orders of the four identities and two []age.Recipient lists, spread with ... into the calls; checked unchanged after every round that used them, plus a sequential pass",
 		"EncryptedSSHIdentity (caches the decrypted key) and plugin values are outside the property's list of types and are not exercised",
 		"decryption inputs and the check of encryption outputs come from the reference implementation (refage), validated against the CCTV vectors at start-up",
@@ -219,6 +230,12 @@ func main() {
 
 	results := make([]*childResult, reps)
 	var wg sync.WaitGroup
+	var dres *defaultsResult
+	wg.Add(1)
+	go func() {
+		defer wg.Done()
+		dres = runDefaults(scratch, r)
+	}()
 	sem := make(chan struct{}, conc)
 	for k := 0; k < reps; k++ {
 		wg.Add(1)
@@ -348,6 +365,63 @@ func main() {
 			}
 		}
 	}
+
+	var repRSS int64
+	for _, res := range results {
+		if res.maxRSSKB > repRSS {
+			repRSS = res.maxRSSKB
+		}
+	}
+	r.Set("peak_rss_kb_of_a_race_repetition_process", repRSS)
+
+	// ---- the library-defaults stage (no race detector; progress verdict) -------
+	dsum := map[string]any{"built_s": dres.buildS, "wall_s": dres.wallS, "peak_rss_kb": dres.peakRSSKB, "rounds_completed": dres.roundsDone}
+	if dres.buildErr != "" {
+		r.Inconclusive("library-defaults stage: cannot build/run the binary without -race: %s", dres.buildErr)
+	}
+	for _, s := range dres.inconcl {
+		r.Inconclusive("%s", s)
+	}
+	okDefaultRounds := 0
+	var drounds []map[string]any
+	for i, ro := range dres.out.Rounds {
+		r.Eval(len(ro.Ops))
+		r.Count("library_defaults_ops", int64(len(ro.Ops)))
+		nf := 0
+		for _, op := range ro.Ops {
+			r.Distinct(fmt.Sprintf("defaults/N%d/wf%d/%s", ro.Spec.N, ro.WorkFactor, op.Name))
+			if op.Fail != "" {
+				nf++
+				wfs := ""
+				if ro.Spec.WF != 0 {
+					wfs = fmt.Sprintf("wf%d:", ro.Spec.WF)
+				}
+				r.Violate("result:defaults:"+wfs+op.Name+":"+op.Fail,
+					fmt.Sprintf("%s among %d concurrent passphrase operations at work factor %d (library defaults stage): %s", op.Name, ro.Spec.N, ro.WorkFactor, op.What),
+					map[string]any{"stage": "library defaults", "round": i, "n": ro.Spec.N, "work_factor": ro.WorkFactor, "op": op.Name})
+			}
+		}
+		if ro.Spec.WF == 0 && ro.MaxInFlight >= 8 && nf == 0 {
+			okDefaultRounds++
+		}
+		drounds = append(drounds, map[string]any{"n": ro.Spec.N, "work_factor": ro.WorkFactor, "ops": len(ro.Ops), "passphrase_ops_max_in_flight": ro.MaxInFlight, "failed": nf})
+	}
+	dsum["rounds"] = drounds
+	if h := dres.hang; h != nil {
+		key := fmt.Sprintf("hang:default-work-factor:N=%d", h.Spec.N)
+		if h.Spec.WF != 0 {
+			key = fmt.Sprintf("hang:work-factor-%d:N=%d", h.Spec.WF, h.Spec.N)
+		}
+		r.Violate(key, fmt.Sprintf("%d concurrent passphrase operations with library-default parameters never return: nothing completed for %d s (alone each takes 1-2 s) and all %d unfinished workers are parked [%s] in %s",
+			h.Spec.N, h.IdleSeconds, h.Blocked, h.State, h.AgeFrame),
+			map[string]any{"stage": "library defaults", "round": h.Round, "n": h.Spec.N, "work_factor_set": h.Spec.WF, "goroutine_dump": h.Dump})
+	} else if okDefaultRounds == 0 {
+		r.Inconclusive("library-defaults stage: no round with >= 8 concurrent default-work-factor passphrase operations completed")
+	}
+	r.Count("library_defaults_rounds_ok", int64(okDefaultRounds))
+	r.Set("library_defaults_stage", dsum)
+	fmt.Printf("   library defaults: rounds=%d ok(default wf, >=8 in flight)=%d wall=%.1fs (+build %.1fs) peak RSS=%d MiB hang=%v\n",
+		dres.roundsDone, okDefaultRounds, dres.wallS, dres.buildS, dres.peakRSSKB/1024, dres.hang != nil)
 
 	// the supervisor's own race log (harness only)
 	if own, _ := readRaceLogs(filepath.Join(scratch, "race")); len(own) > 0 {
